@@ -31,9 +31,9 @@ def build():
     u.module("crypto", "use crate::*;\nuse crate::error::Error;\nuse crate::vjson::Value;\nuse crate::openssl::bn::{BigNum, BigNumContext};\n"
              "use crate::openssl::ec::{EcGroup, EcKey};\nuse crate::openssl::ecdsa::EcdsaSig;\nuse crate::openssl::hash::MessageDigest;\n"
              "use crate::openssl::nid::Nid;\nuse crate::openssl::pkey::{Id, PKey, Private};")
-    u.take("acme_common/src/crypto/jws_signature_algorithm.rs", "JwsSignatureAlgorithm", "crypto", keep_derives=("PartialEq",))
-    u.take(KT, "KeyType", "crypto", keep_derives=("PartialEq",))
-    u.take("acme_common/src/crypto.rs", "BaseHashFunction", "crypto", keep_derives=("PartialEq",))
+    u.take("acme_common/src/crypto/jws_signature_algorithm.rs", "JwsSignatureAlgorithm", "crypto", keep_derives=("PartialEq", "Clone", "Copy"))
+    u.take(KT, "KeyType", "crypto", keep_derives=("PartialEq", "Clone", "Copy"))
+    u.take("acme_common/src/crypto.rs", "BaseHashFunction", "crypto", keep_derives=("PartialEq", "Clone", "Copy"))
     u.take(K, "KeyPair", "crypto")
     u.raw("crypto", SPEC)
     u.raw("crypto", TRUSTED, trusted=True)
